@@ -171,6 +171,9 @@ const (
 // g in function fn. minSites is the floor for guard sites, minEffects for
 // effect sites (a rule matching nothing never passes).
 func (c *Ctx) guarded(fn *ssa.Function, g guard, minSites int, ename string, effects []ssa.Instruction, minEffects int, mode gMode) bool {
+	if c.silent {
+		return c.guardedQuiet(fn, g, minSites, effects, minEffects, mode)
+	}
 	construct := fmt.Sprintf("%s | guard %s | effect %s", c.nm(fn), g.name, ename)
 	pos := c.P.Pos(fn.Pos())
 	var sites []string
@@ -274,11 +277,11 @@ func (c *Ctx) nilReturnsGuarded(fn *ssa.Function, g guard, minSites int) bool {
 		if !ok || nres == 0 {
 			continue
 		}
-		rv := ret.Results[nres-1]
+		rv := ir.RetVal(ret, nres-1)
 		if isGuardVal[rv] {
 			continue // nil iff the guard succeeded
 		}
-		if !ir.IsNil(rv) && nonNilAt(rv, b) {
+		if !ir.IsNil(rv) && (nonNilAt(rv, b) || knownNonNilError(rv)) {
 			continue
 		}
 		effects = append(effects, ret)
@@ -294,6 +297,9 @@ func (c *Ctx) nilReturnsGuarded(fn *ssa.Function, g guard, minSites int) bool {
 	g2 := g
 	g2.sites = real
 	if floorSites < minSites {
+		if c.silent {
+			return false
+		}
 		construct := fmt.Sprintf("%s | guard %s | effect return nil", c.nm(fn), g.name)
 		c.fail(construct, c.P.Pos(fn.Pos()), fmt.Sprintf("validator %q is no longer consulted (%d site(s), need %d)", g.name, floorSites, minSites))
 		return false
@@ -352,4 +358,184 @@ func typeAsserts(t types.Type) Sel {
 		ta, ok := in.(*ssa.TypeAssert)
 		return ok && ta.CommaOk && types.Identical(ta.AssertedType, t)
 	}
+}
+
+// guardedQuiet evaluates a G obligation without recording it (used for
+// wrapper summaries).
+func (c *Ctx) guardedQuiet(fn *ssa.Function, g guard, minSites int, effects []ssa.Instruction, minEffects int, mode gMode) bool {
+	if len(g.unchecked) > 0 || len(g.sites) < minSites || len(effects) < minEffects {
+		return false
+	}
+	switch mode {
+	case gDominate:
+		r := ir.ReachEntry(fn, g.cut())
+		for _, e := range effects {
+			if r[e.Block()] {
+				return false
+			}
+		}
+	case gFailEdge:
+		isEff := map[ssa.Instruction]bool{}
+		for _, e := range effects {
+			isEff[e] = true
+		}
+		bad := false
+		for _, s := range g.sites {
+			ir.WalkEdge(s.br.Other(), nil, func(in ssa.Instruction) bool {
+				if isEff[in] {
+					bad = true
+				}
+				return !bad
+			})
+		}
+		return !bad
+	}
+	return true
+}
+
+// wrapper is a module function that is itself a validator with respect to a
+// target validator: it has a trailing error result, calls the target (or
+// another wrapper) on one of its own parameters, and every return that may be
+// nil is protected by that call having succeeded.
+type wrapper struct {
+	fn   *ssa.Function
+	obj  *types.Func
+	subj int // index, in the wrapper call's Args, of the validated subject
+}
+
+// wrappersOf computes wrapper summaries of target up to depth 3. subjArg is
+// the index (in CallCommon.Args) of the validated subject in a call of target;
+// resIdx the index of its error result.
+func (c *Ctx) wrappersOf(target *types.Func, subjArg int) []wrapper {
+	key := fmt.Sprintf("%p/%d", target, subjArg)
+	if c.wrapCache == nil {
+		c.wrapCache = map[string][]wrapper{}
+	}
+	if w, ok := c.wrapCache[key]; ok {
+		return w
+	}
+	type vt struct {
+		obj  *types.Func
+		subj int
+	}
+	known := []vt{{target, subjArg}}
+	var out []wrapper
+	seen := map[*ssa.Function]bool{}
+	for depth := 0; depth < 3; depth++ {
+		added := false
+		for _, fn := range c.P.Funcs {
+			if seen[fn] || fn.Parent() != nil || fn.Signature.Results().Len() == 0 {
+				continue
+			}
+			obj, _ := fn.Object().(*types.Func)
+			if obj == nil || obj == target {
+				continue
+			}
+			res := fn.Signature.Results()
+			if !isErrorType(res.At(res.Len() - 1).Type()) {
+				continue
+			}
+			for _, k := range known {
+				var calls []ssa.Instruction
+				subjParam := -1
+				for _, in := range find(fn, onlyCalls(callTo(k.obj))) {
+					a := ir.CallOf(in).Args
+					if k.subj >= len(a) {
+						continue
+					}
+					for pi, p := range fn.Params {
+						if a[k.subj] == ssa.Value(p) {
+							subjParam = pi
+							calls = append(calls, in)
+						}
+					}
+				}
+				if len(calls) == 0 {
+					continue
+				}
+				prev := c.silent
+				c.silent = true
+				okv := c.nilReturnsGuarded(fn, errNil("", calls, -1), 1)
+				c.silent = prev
+				if okv {
+					seen[fn] = true
+					out = append(out, wrapper{fn, obj, subjParam})
+					known = append(known, vt{obj, subjParam})
+					added = true
+					break
+				}
+			}
+		}
+		if !added {
+			break
+		}
+	}
+	c.wrapCache[key] = out
+	return out
+}
+
+func isErrorType(t types.Type) bool {
+	n, ok := t.(*types.Named)
+	return ok && n.Obj().Pkg() == nil && n.Obj().Name() == "error"
+}
+
+// validatorCalls returns the calls in fn of target or of one of its wrapper
+// summaries, each with the SSA value of the validated subject.
+type vcall struct {
+	in   ssa.Instruction
+	subj ssa.Value
+	via  string
+}
+
+func (c *Ctx) validatorCalls(fn *ssa.Function, target *types.Func, subjArg int) []vcall {
+	var out []vcall
+	for _, in := range find(fn, onlyCalls(callTo(target))) {
+		a := ir.CallOf(in).Args
+		if subjArg < len(a) {
+			out = append(out, vcall{in, a[subjArg], ""})
+		}
+	}
+	for _, w := range c.wrappersOf(target, subjArg) {
+		for _, in := range find(fn, onlyCalls(callTo(w.obj))) {
+			a := ir.CallOf(in).Args
+			if w.subj < len(a) {
+				out = append(out, vcall{in, a[w.subj], c.nm(w.fn)})
+			}
+		}
+	}
+	return out
+}
+
+func vcallInstrs(v []vcall) []ssa.Instruction {
+	var out []ssa.Instruction
+	for _, x := range v {
+		out = append(out, x.in)
+	}
+	return out
+}
+
+// knownNonNilError: v is an error value that cannot be nil: the result of
+// fmt.Errorf / errors.New, an interface made from a non-pointer value or from
+// the address of a composite literal, or a load of a package-level sentinel
+// error variable (ErrXxx).
+func knownNonNilError(v ssa.Value) bool {
+	switch x := v.(type) {
+	case *ssa.Call:
+		if f := x.Call.StaticCallee(); f != nil && f.Pkg != nil {
+			full := f.Pkg.Pkg.Path() + "." + f.Name()
+			return full == "fmt.Errorf" || full == "errors.New"
+		}
+	case *ssa.MakeInterface:
+		if _, isPtr := x.X.Type().Underlying().(*types.Pointer); !isPtr {
+			return true
+		}
+		_, isAlloc := x.X.(*ssa.Alloc)
+		return isAlloc
+	case *ssa.UnOp:
+		if g, ok := x.X.(*ssa.Global); ok && x.Op == token.MUL {
+			n := g.Name()
+			return len(n) > 3 && (n[:3] == "Err" || n[:3] == "err")
+		}
+	}
+	return false
 }
